@@ -227,9 +227,9 @@ pub trait PathImpl: 'static {
 	#[inline]
 	fn normalized(&self) -> Self::Owned {
 		let mut result: Self::Owned = if self.is_absolute() {
-			Self::EMPTY_ABSOLUTE.to_path_buf()
+			verif_static!(Self::EMPTY_ABSOLUTE, Self::new_unchecked(b"/")).to_path_buf()
 		} else {
-			Self::EMPTY.to_path_buf()
+			verif_static!(Self::EMPTY, Self::new_unchecked(b"")).to_path_buf()
 		};
 
 		let mut open = false;
@@ -238,7 +238,10 @@ pub trait PathImpl: 'static {
 		}
 
 		if open && !result.is_empty() {
-			result.as_path_mut().push(Self::Segment::EMPTY)
+			result.as_path_mut().push(verif_static!(
+				Self::Segment::EMPTY,
+				<Self::Segment as SegmentImpl>::new_unchecked(b"")
+			))
 		}
 
 		result
@@ -267,7 +270,7 @@ pub trait PathImpl: 'static {
 			}
 
 			if i == 0 && bytes[i] != b'/' {
-				Self::EMPTY
+				verif_static!(Self::EMPTY, Self::new_unchecked(b""))
 			} else {
 				unsafe { Self::new_unchecked(&bytes[..=i]) }
 			}
@@ -286,7 +289,7 @@ pub trait PathImpl: 'static {
 			loop {
 				if bytes[end] == b'/' {
 					if end == 0 {
-						return Some(Self::EMPTY_ABSOLUTE);
+						return Some(verif_static!(Self::EMPTY_ABSOLUTE, Self::new_unchecked(b"/")));
 					}
 
 					break;
@@ -315,9 +318,9 @@ pub trait PathImpl: 'static {
 	fn parent_or_empty(&self) -> &Self {
 		self.parent().unwrap_or_else(|| {
 			if self.is_absolute() {
-				Self::EMPTY_ABSOLUTE
+				verif_static!(Self::EMPTY_ABSOLUTE, Self::new_unchecked(b"/"))
 			} else {
-				Self::EMPTY
+				verif_static!(Self::EMPTY, Self::new_unchecked(b""))
 			}
 		})
 	}
